@@ -32,7 +32,12 @@ func execLLS(a []Tok) string {
 	var terms []func(xs, out []float64)
 	for _, row := range a[3].Arr {
 		r := row.Fs()
-		terms = append(terms, func(xs, out []float64) { copy(out, r) })
+		// (written the way a caller's basis function is: one value per element of the output it is given)
+		terms = append(terms, func(xs, out []float64) {
+			for i := range out {
+				out[i] = r[i]
+			}
+		})
 	}
 	p := fit.LinearLeastSquares(xs, ys, ws, terms...)
 	if !sameBits(xs, ox) || !sameBits(ys, oy) {
